@@ -30,6 +30,8 @@ PRED_DOC = {
     "others-untouched": "objects the diff did not name keep content, hash and modify index",
     "equal-no-writes": "a secondary whose replicated set already equals the primary's (hashes present) gets an empty diff, "
                        "no raft command and an unchanged store",
+    "local-listing": "the listing the real FetchLocal / ConfigEntries / FederationStateList handed to the diff is exactly the "
+                     "non-local-only part of the real secondary store (local-scoped tokens are not listed)",
     "hash-faithful": "for one object, the hashes stored by the real code (SetHash, HashConfigEntry) are equal exactly when the "
                      "contents are equal - the diff relies on it to skip unchanged objects",
     "apply-ok": "every raft command built from the diff was accepted by the real FSM / state store",
